@@ -12,6 +12,9 @@
  */
 #ifndef V_LIBC_MODEL_H
 #define V_LIBC_MODEL_H
+#ifndef _GNU_SOURCE
+#define _GNU_SOURCE      /* the extracted code was compiled as GNU C++ (g++ defines it): same names of system struct members (fd_set::fds_bits) */
+#endif
 #include <stddef.h>
 #include <stdint.h>
 #include <stdbool.h>
@@ -21,6 +24,7 @@
 #include <sys/uio.h>
 #include <sys/time.h>
 #include <sys/epoll.h>
+#include <sys/select.h>
 
 #ifndef V_MAXSZ
 #define V_MAXSZ ((size_t)1 << 40)   /* object sizes are below this by precondition of the specs */
